@@ -953,23 +953,44 @@ Proof.
   set (bs := Z.max 1 (Z.quot limit P)).
   assert (Hbs : 1 <= bs) by (unfold bs; lia).
   destruct (Z_lt_ge_dec d ((P - 1) * bs)) as [Lo|Hi].
-  - (* an inner block *)
+  - (* an inner block: it ends at (i+1)*bs or, clamped, at limit; d lies below both *)
     set (i := d / bs).
     assert (Hi0 : 0 <= i) by (unfold i; apply Z.div_pos; lia).
     assert (Hi1 : i * bs <= d < (i + 1) * bs).
     { unfold i. pose proof (Z.mul_div_le d bs ltac:(lia)). pose proof (Z.mul_succ_div_gt d bs ltac:(lia)). nia. }
     assert (Hi2 : i < P - 1) by nia.
-    exists (i * bs, (i + 1) * bs). split.
+    exists (i * bs, if limit <? (i + 1) * bs then limit else (i + 1) * bs). split.
     + unfold lin_blocks. fold bs. apply in_map_iff. exists i. split.
       * assert (E : (i =? P - 1) = false) by (apply Z.eqb_neq; lia). rewrite E. reflexivity.
       * apply In_seqZ_iff. rewrite Z2Nat.id by lia. lia.
-    + unfold block_cands. cbn [fst snd]. apply In_seqZ_iff. rewrite Z2Nat.id by lia. lia.
+    + unfold block_cands. cbn [fst snd]. apply In_seqZ_iff.
+      destruct (limit <? (i + 1) * bs); rewrite Z2Nat.id by lia; lia.
   - (* the last block *)
     exists ((P - 1) * bs, limit). split.
     + unfold lin_blocks. fold bs. apply in_map_iff. exists (P - 1). split.
       * rewrite Z.eqb_refl. reflexivity.
       * apply In_seqZ_iff. rewrite Z2Nat.id by lia. lia.
     + unfold block_cands. cbn [fst snd]. apply In_seqZ_iff. rewrite Z2Nat.id by lia. lia.
+Qed.
+
+(** No decrement at or beyond the limit is ever tried, whatever the number of
+    goroutines is (the statement that was false before the repair 92fa0d4). *)
+Lemma lin_cands_below_limit : forall P limit d, In d (lin_cands P limit) -> 0 <= d < limit.
+Proof.
+  intros P limit d H. unfold lin_cands in H. apply in_flat_map in H as ((a, b) & Hb & Hd).
+  unfold lin_blocks in Hb. set (bs := Z.max 1 (Z.quot limit P)) in *.
+  assert (Hbs : 1 <= bs) by (unfold bs; lia).
+  apply in_map_iff in Hb as (i & E & Hi). apply In_seqZ_iff in Hi.
+  inversion E; subst a b; clear E.
+  unfold block_cands in Hd. cbn [fst snd] in Hd. apply In_seqZ_iff in Hd.
+  destruct ((i =? P - 1) || (limit <? (i + 1) * bs)) eqn:C.
+  - assert (0 <= i * bs) by nia.
+    destruct (Z_le_gt_dec (limit - i * bs) 0) as [Le|Gt].
+    + replace (Z.to_nat (limit - i * bs)) with O in Hd by lia. lia.
+    + rewrite Z2Nat.id in Hd by lia. lia.
+  - apply orb_false_iff in C as [_ C]. apply Z.ltb_ge in C.
+    assert (0 <= i * bs) by nia.
+    rewrite Z2Nat.id in Hd by nia. nia.
 Qed.
 
 Theorem repair_complete : forall (Hp : meas -> Z -> list Z) P st m digest d,
